@@ -4,6 +4,7 @@ import (
 	"context"
 	"encoding/json"
 	"fmt"
+	"runtime"
 	"sync"
 	"time"
 
@@ -269,13 +270,20 @@ func (r reqEnc) Encode(b *bin.Buffer) error {
 
 // outDec is the Output of invocation i.
 type outDec struct {
-	w    *world
-	i    int
-	mode int
+	w     *world
+	i     int
+	mode  int
+	yield bool // concurrent arm: a decoder that takes its time (reads the body, yields, reads it again)
 }
 
 func (o *outDec) Decode(b *bin.Buffer) error {
 	tok := resTok(b.Buf)
+	if o.yield {
+		runtime.Gosched()
+		if again := resTok(b.Buf); again != tok {
+			tok = "res:changed-while-decoding:" + tok + "/" + again
+		}
+	}
 	var err error
 	if o.mode == 1 {
 		err = decodeTyped(b)
